@@ -1,6 +1,8 @@
 import OdakProofs.RealInst
 import OdakProofs.Lemmas.Codec
 import OdakProofs.Lemmas.GenImageCodecTorch
+import OdakProofs.Lemmas.GenPly
+import OdakModel.FileWiring
 import OdakModel.Codec
 import Mathlib.Algebra.Order.Floor.Ring
 import Mathlib.Tactic.Linarith
@@ -422,5 +424,164 @@ theorem C19_gen_codec_wiring :
 example : ∃ img : Tensor ℝ, img.shape = [2, 2] ∧ ∀ i j, i < 2 → j < 2 → ∃ n : ℕ, n ≤ 2 ^ 8 - 1 ∧ img.get [i, j] = (n : ℝ) :=
   ⟨⟨[2, 2], fun idx => ((if idx = [0, 0] then 0 else if idx = [0, 1] then 1 else if idx = [1, 0] then 254 else 255 : ℕ) : ℝ)⟩, rfl,
     fun i j _ _ => ⟨_, by split_ifs <;> norm_num, rfl⟩⟩
+
+end Odak
+
+/-! ## The PLY writers / reader and the remaining file helpers REGENERATED from the source (`Generated/PlyGen.lean`, regenerated from
+  `odak/tools/asset.py` and `odak/tools/file.py` on every run by `harness/translate/plygen.py`; ties: `Lemmas/GenPly.lean`; hand model:
+  `OdakModel/Ply.lean`, `OdakModel/Codec.lean`, `OdakModel/FileWiring.lean`).  `plyfile` is a lossless byte codec (parameter of C19): what
+  it stores is `plyStoredRows` of the regenerated reference lists, what `read_PLY` gets back is `plyRowPoint` of those rows.
+  Coordinates are stored as `f4`: "identical values" is about arrays of float32-representable numbers (the cast is in `plyReadWiring`). -/
+namespace Odak
+open Odak.Gen
+
+/-- [tie] the regenerated vertex table and face list of `write_PLY_from_points` for an `m x n` grid are the model's: grid point `(i, j)`
+    in row `i·n + j` (row-major, row stride = number of COLUMNS), and per cell `(i, j)` the triangles `A = (i+1, j), (i, j), (i, j+1)` and
+    `B = (i+1, j), (i, j+1), (i+1, j+1)` as rows of that table (finding F43: with the stride `samples[0]` this does not hold) -/
+theorem C19_gen_ply_points_tie (m n : Nat) :
+    plyPointsVertices m n = (plyGridVertices m n).map (fun c => [(c.1, c.2, 0), (c.1, c.2, 1), (c.1, c.2, 2)]) ∧
+    (plyPointsFaces m n).map (·.1) = plyGridFaces m n ∧
+    ∀ f ∈ plyPointsFaces m n, (f.2.1, f.2.2.1, f.2.2.2) = (255, 255, 255) := by
+  refine ⟨plyPointsVertices_eq m n, plyPointsFaces_eq m n, ?_⟩
+  intro f hf
+  simp only [plyPointsFaces, pyRange_zero, List.mem_flatMap, List.mem_append, List.mem_cons, List.mem_nil_iff, or_false] at hf
+  obtain ⟨_, _, _, _, rfl | rfl⟩ := hf <;> rfl
+
+/-- every face index is in range: for every `m x n` grid every vertex index of every face written by `write_PLY_from_points` is a row of
+    the vertex table it writes (`m·n` rows) -/
+theorem C19_gen_ply_faces_in_range (m n : Nat) :
+    (plyPointsVertices m n).length = m * n ∧
+    ∀ f ∈ plyPointsFaces m n, ∀ v ∈ f.1, v < (plyPointsVertices m n).length := by
+  have hl : (plyPointsVertices m n).length = m * n := by rw [plyPointsVertices_eq, List.length_map, length_plyGridVertices]
+  refine ⟨hl, fun f hf v hv => ?_⟩
+  rw [hl]
+  refine plyGridFaces_in_range m n f.1 ?_ v hv
+  rw [← plyPointsFaces_eq]
+  exact List.mem_map_of_mem hf
+
+/-- the two triangles of cell `(i, j)` are exactly the cell's corner vertices: they are the faces number `2 (i (n-1) + j)` and the next one
+    of the regenerated face list, and resolving their indices through the regenerated vertex table gives the array elements of the corners
+    `(i+1, j), (i, j), (i, j+1)` and `(i+1, j), (i, j+1), (i+1, j+1)` - all four corners of the cell, the diagonal `(i+1, j) - (i, j+1)`
+    shared -/
+theorem C19_gen_ply_cell_triangles (m n i j : Nat) (hi : i < m - 1) (hj : j < n - 1) :
+    ((plyPointsFaces m n).map (·.1))[(i * (n - 1) + j) * 2]? = some (plyCellFaceA n i j) ∧
+    ((plyPointsFaces m n).map (·.1))[(i * (n - 1) + j) * 2 + 1]? = some (plyCellFaceB n i j) ∧
+    (plyCellFaceA n i j).map (fun r => (plyPointsVertices m n)[r]?) =
+      (plyCellCornersA i j).map (fun c => some [(c.1, c.2, 0), (c.1, c.2, 1), (c.1, c.2, 2)]) ∧
+    (plyCellFaceB n i j).map (fun r => (plyPointsVertices m n)[r]?) =
+      (plyCellCornersB i j).map (fun c => some [(c.1, c.2, 0), (c.1, c.2, 1), (c.1, c.2, 2)]) := by
+  obtain ⟨a, b⟩ := plyGridFaces_index m n i j hi hj
+  rw [plyPointsFaces_eq]
+  have row : ∀ a b, a < m → b < n →
+      (plyPointsVertices m n)[plyGridRow n a b]? = some [(a, b, 0), (a, b, 1), (a, b, 2)] := by
+    intro a b ha hb
+    rw [plyPointsVertices_eq, List.getElem?_map, plyGridVertices_row m n a b ha hb]; rfl
+  refine ⟨a, b, ?_, ?_⟩ <;>
+    simp only [plyCellFaceA, plyCellFaceB, plyCellCornersA, plyCellCornersB, List.map_cons, List.map_nil] <;>
+    rw [row _ _ (by omega) (by omega), row _ _ (by omega) (by omega), row _ _ (by omega) (by omega)]
+
+/-- all `(m - 1)(n - 1) · 2` faces are distinct, and every face is triangle A or triangle B of a cell of the grid -/
+theorem C19_gen_ply_faces_distinct (m n : Nat) :
+    (plyPointsFaces m n).length = (m - 1) * (n - 1) * 2 ∧ ((plyPointsFaces m n).map (·.1)).Nodup ∧
+    ∀ f ∈ (plyPointsFaces m n).map (·.1), ∃ i j, i < m - 1 ∧ j < n - 1 ∧ (f = plyCellFaceA n i j ∨ f = plyCellFaceB n i j) := by
+  refine ⟨?_, by rw [plyPointsFaces_eq]; exact plyGridFaces_nodup m n, fun f hf => ?_⟩
+  · rw [← List.length_map (f := (·.1)), plyPointsFaces_eq, length_plyGridFaces]
+  · rw [plyPointsFaces_eq] at hf; exact (mem_plyGridFaces m n f).mp hf
+
+/-- `read_PLY(write_PLY_from_points(points))` with the default offset and angles (both zero): for every `m x n x 3` array `A` the returned
+    triangles are, cell by cell in row-major order, the corner POINTS `(A[i+1, j], A[i, j], A[i, j+1])` and `(A[i+1, j], A[i, j+1], A[i+1, j+1])` -/
+theorem C19_gen_ply_points_roundtrip (m n : Nat) (A : Nat → Nat → Nat → ℝ) :
+    plyReadTriangles ⟨0, 0, 0⟩ ⟨0, 0, 0⟩ (plyRowPoint (plyStoredRows A (plyPointsVertices m n))) ((plyPointsFaces m n).map (·.1)) =
+      (plyGridCells m n).flatMap fun c =>
+        [(plyCellCornersA c.1 c.2).map fun q => plyPoint A q.1 q.2, (plyCellCornersB c.1 c.2).map fun q => plyPoint A q.1 q.2] := by
+  rw [plyRead_points]
+  have h : ∀ p : Vec3 ℝ, (rotFromOrder .np [.z, .y, .x] (⟨0, 0, 0⟩ : Vec3 ℝ)).mulVec p + ⟨0, 0, 0⟩ = p := by
+    intro p; rw [rotFromOrder_zero, Mat3.one_mulVec]; apply Vec3.ext' <;> simp [Vec3.add_def, Vec3.add]
+  simp only [h]
+
+/-- `read_PLY(write_PLY(triangles)) = triangles` (default offset and angles): for every number `k` of triangles and every `k x 3 x 3` array
+    the `t`-th returned triangle is the `t`-th written one, corner by corner, in order; the written faces are the hand model's `plyFace`
+    (`[3t, 3t+1, 3t+2]`, no vertex is shared or de-duplicated: 3 rows per triangle) -/
+theorem C19_gen_ply_roundtrip (k : Nat) (T : Nat → Nat → Nat → ℝ) :
+    (plyWriteFaces k).map (·.1) = (List.range k).map plyFace ∧ (plyWriteVertices k).length = 3 * k ∧
+    plyReadTriangles ⟨0, 0, 0⟩ ⟨0, 0, 0⟩ (plyRowPoint (plyStoredRows T (plyWriteVertices k))) ((plyWriteFaces k).map (·.1)) =
+      (List.range k).map fun t => [plyPoint T t 0, plyPoint T t 1, plyPoint T t 2] := by
+  refine ⟨plyWriteFaces_eq k, ?_, ?_⟩
+  · rw [plyWriteVertices_eq, length_flatMap_range_const _ 3 (fun i => by simp) k, Nat.mul_comm]
+  · rw [plyRead_write]
+    have h : ∀ p : Vec3 ℝ, (rotFromOrder .np [.z, .y, .x] (⟨0, 0, 0⟩ : Vec3 ℝ)).mulVec p + ⟨0, 0, 0⟩ = p := by
+      intro p; rw [rotFromOrder_zero, Mat3.one_mulVec]; apply Vec3.ext' <;> simp [Vec3.add_def, Vec3.add]
+    simp only [h, List.map_cons, List.map_nil]
+
+/-- `read_PLY` with an offset and angles: every corner is ROTATED ABOUT THE ORIGIN (mode "XYZ": `Rz Ry Rx`, whatever `mode` the caller of
+    `read_PLY` passes) and THEN shifted by the offset; one triangle per face, corners in the order of the face entries -/
+theorem C19_gen_ply_read (offset angles : Vec3 ℝ) (vertex : Nat → Vec3 ℝ) (faces : List (List Nat)) :
+    plyReadTriangles offset angles vertex faces =
+      faces.map fun ids => [0, 1, 2].map fun c => (rotFromOrder .np [.z, .y, .x] angles).mulVec (vertex (ids.getD c 0)) + offset :=
+  plyReadTriangles_eq offset angles vertex faces
+
+/-- [regenerated wiring of the three PLY routines] both writers hand `plyfile` the elements `vertex` then `face`, coordinates as `f4`,
+    indices as `i4` triples under the name `vertex_indices`, the `text` flag as the (truthy) STRING 'True', and write to `savefn`; the reader
+    opens `fn` in binary mode, looks up exactly those element / property names, gives `rotate_point` the keywords `angles` and `offset` only
+    (NOT the `mode` parameter of `read_PLY`, which is unused), casts to float32; its defaults are zero offset, zero angles -/
+theorem C19_gen_ply_wiring :
+    plyPointsWiring = plyWriteWiring ∧
+    plyWriteWiring = [("elements", "vertex, face"), ("vertex dtype", "[('x', 'f4'), ('y', 'f4'), ('z', 'f4')]"),
+      ("face dtype", "[('vertex_indices', 'i4', (3,)), ('red', 'u1'), ('green', 'u1'), ('blue', 'u1')]"), ("text", "'True'"),
+      ("write", "savefn")] ∧
+    plyReadWiring = [("open", "fn, 'rb'"),
+      ("lookups", "element: face; property of face: vertex_indices; element: vertex; row of vertex: by index"),
+      ("rotate_point keywords", "angles, offset"), ("casts", "triangles -> np.float32"), ("default offset", "[0, 0, 0]"),
+      ("default angles", "[0.0, 0.0, 0.0]"), ("default mode", "'XYZ'")] := by decide
+
+/-- [regenerated wiring of the file helpers] `save_dictionary`: `json.dump(settings, f, ensure_ascii=False, indent=4)` into
+    `open(expanduser(filename), 'w', encoding='utf-8')`, returns `settings`; `load_dictionary`: `json.load(open(expanduser(filename)))` (no
+    mode, NO encoding: the reader uses the locale's default where the writer fixes UTF-8); `write_to_text_file`: `open(expanduser(filename),
+    write_flag)` with `write_flag = 'w'` by default, one `'{}\n'.format(line)` per item of `content`, returns True; `list_files`:
+    `pathlib.Path(expanduser(path)).rglob(key)` when `recursive == True`, `.glob(key)` when `recursive == False` (any other value leaves
+    `search_result` unbound), `key = '*.*'` by default, `str` of every item, sorted; `check_directory`: `os.makedirs(expanduser(directory))`
+    and False when `os.path.exists(expanduser(directory))` fails, True otherwise; `expanduser` is `os.path.expanduser` -/
+theorem C19_gen_file_wiring :
+    saveDictionaryWiring = [("parameters", "settings, filename"), ("file variable", "f"), ("open file", "expanduser(filename)"),
+      ("open mode", "'w'"), ("open encoding", "'utf-8'"), ("call", "json.dump"), ("dump obj", "settings"), ("dump fp", "f"),
+      ("dump ensure_ascii", "False"), ("dump indent", "4"), ("returns", "settings")] ∧
+    loadDictionaryWiring = [("parameters", "filename"), ("call", "json.load"), ("open file", "expanduser(filename)"),
+      ("assigned to", "settings"), ("returns", "settings")] ∧
+    writeToTextFileWiring = [("parameters", "content, filename, write_flag"), ("default write_flag", "'w'"),
+      ("open file", "expanduser(filename)"), ("open mode", "write_flag"), ("file variable", "f"), ("loop", "for line in content"),
+      ("loop body", "f.write('{}\\n'.format(line))"), ("returns", "True")] ∧
+    listFilesWiring = [("parameters", "path, key, recursive"), ("default key", "'*.*'"), ("default recursive", "True"),
+      ("if recursive == True", "search_result = pathlib.Path(expanduser(path)).rglob(key)"),
+      ("if recursive == False", "search_result = pathlib.Path(expanduser(path)).glob(key)"), ("then", "files_list = []"),
+      ("loop", "for item in search_result: files_list.append(str(item))"), ("then ", "files_list = sorted(files_list)"),
+      ("returns", "files_list")] ∧
+    checkDirectoryWiring = [("parameters", "directory"), ("if", "not os.path.exists(expanduser(directory))"),
+      ("then", "os.makedirs(expanduser(directory)); return False"), ("otherwise returns", "True")] ∧
+    expanduserWiring = [("parameters", "filename"), ("statement", "new_filename = os.path.expanduser(filename)"),
+      ("statement", "return new_filename")] := by decide
+
+/-- dictionaries: with `json.dump` / `json.load` a lossless codec (`dec (enc d) = some d`) and ANY `expanduser`, what `save_dictionary`
+    writes under a file name is what `load_dictionary` reads back under the same name - both open `expanduser(filename)`, the dumped object
+    is the dictionary, the handle written to is the file opened; every other file is left alone -/
+theorem C19_gen_dictionary_roundtrip {D : Type} (enc : D → List Nat) (dec : List Nat → Option D) (h : ∀ d, dec (enc d) = some d)
+    (expand : String → String) (fs : FS) (filename : String) (d : D) :
+    ∃ fs', saveDictionary enc expand fs filename d = some fs' ∧ loadDictionary dec expand fs' filename = some d ∧
+      ∀ q, q ≠ expand filename → fs' q = fs q := by
+  refine ⟨fun q => if q = expand filename then some (enc d) else fs q, ?_, ?_, fun q hq => by simp [hq]⟩
+  · simp [saveDictionary, wiredPath, saveDictionaryWiring, List.lookup]
+  · simp [loadDictionary, wiredPath, loadDictionaryWiring, List.lookup, h]
+
+/-- `check_directory`: returns True and creates nothing when the expanded directory exists; returns False and creates exactly the expanded
+    directory when it does not -/
+theorem C19_gen_check_directory (exists_ : String → Bool) (expand : String → String) (directory : String) :
+    checkDirectory exists_ expand directory =
+      some (if exists_ (expand directory) then (true, none) else (false, some (expand directory))) := by
+  simp [checkDirectory, checkDirectoryWiring, List.lookup]
+
+/-- non-vacuity: the 2 x 3 grid has 6 vertices and the 4 faces below (stride 3 = number of columns); with the stride `samples[0] = 2` of the
+    pre-F43 source the last index would have been `1 + 1 + 1·2 = 4` where `(1, 2)` is row 5 -/
+example : (plyPointsFaces 2 3).map (·.1) = [[3, 0, 1], [3, 1, 4], [4, 1, 2], [4, 2, 5]] ∧ (plyPointsVertices 2 3).length = 6 := by decide
+
+example : (plyWriteFaces 2).map (·.1) = [[0, 1, 2], [3, 4, 5]] := by decide
 
 end Odak
